@@ -318,7 +318,12 @@ func normalizeToken(in string) string {
 	// are not exact match on the token.
 	// Normalizing URLs from https to http is an example of a fix applied
 	// here.
-	return strings.ReplaceAll(in, "https", "http")
+	// Only the URL scheme is rewritten. Rewriting any "https" would also hit
+	// words that merely contain it once punctuation is gone (the cleaned-up
+	// "http://source.android.com" is "httpsourceandroidcom"), which makes the
+	// rewrite non-idempotent: tokenizing Normalize output would change the word
+	// again.
+	return strings.ReplaceAll(in, "https://", "http://")
 }
 
 func flushBuf(pos int, obuf []byte, normalizeWord bool, ld *dictionary) tokenID {
